@@ -165,7 +165,18 @@ var deepShapes = map[string][3]string{
 	"nested":  {"$[?(", "(1 + ", "1"},
 }
 
+// products: 100 times (a unit that opens a nested filter, n times a nesting token, an operand):
+// neither the number of filters nor the depth inside one script is large, their product is what
+// the recursion has to take.
+var deepProducts = map[string][5]string{
+	"filters-of-nots":   {"$", "[?(", "!", "@", ".x"},
+	"filters-of-groups": {"$", "[?(", "(", "@", ".x"},
+}
+
 func deepInput(shape string, n int) string {
+	if q, ok := deepProducts[shape]; ok {
+		return q[0] + strings.Repeat(q[1]+strings.Repeat(q[2], n)+q[3], 100) + q[4]
+	}
 	p := deepShapes[shape]
 	return p[0] + strings.Repeat(p[1], n) + p[2]
 }
@@ -173,7 +184,12 @@ func deepInput(shape string, n int) string {
 // runDeep: megabytes of nesting must end in an error or a result, not in the death of the
 // process (the parsers recurse; a stack overflow is not a panic that could be recovered).
 func runDeep(cs Case, c *vrt.Ctx) {
-	if _, ok := deepShapes[cs.Shape]; !ok {
+	unit := ""
+	if p, ok := deepShapes[cs.Shape]; ok {
+		unit = p[1]
+	} else if q, ok := deepProducts[cs.Shape]; ok {
+		unit = "100 x " + q[1] + " x " + q[2]
+	} else {
 		return
 	}
 	c.NonTrivial()
@@ -189,7 +205,7 @@ func runDeep(cs Case, c *vrt.Ctx) {
 		if len(msg) > 300 {
 			msg = msg[:300]
 		}
-		c.Fail("process-died", "jp.ParseString / jp.NewScript", fmt.Sprintf("%d x %q (%s): %v %s", cs.Deep, deepShapes[cs.Shape][1], cs.Shape, err, msg))
+		c.Fail("process-died", "jp.ParseString / jp.NewScript", fmt.Sprintf("%d x %q (%s): %v %s", cs.Deep, unit, cs.Shape, err, msg))
 	}
 }
 
@@ -206,6 +222,15 @@ func TestDeepNesting(t *testing.T) {
 	}
 	for _, shape := range shapes {
 		for _, n := range sizes {
+			vrt.Eval(suite, "total", Case{Target: "deep", Shape: shape, Deep: n}, Run)
+		}
+	}
+	psizes := []int{90000}
+	if vrt.Thorough() {
+		psizes = []int{900, 20000, 90000, 99000}
+	}
+	for shape := range deepProducts {
+		for _, n := range psizes {
 			vrt.Eval(suite, "total", Case{Target: "deep", Shape: shape, Deep: n}, Run)
 		}
 	}
